@@ -265,6 +265,7 @@ def run_case(case):
     # its parent container in the model (shared referents are shared Python objects) plus its last step, not by the
     # path: one slot can be reached through several paths once referents are shared
     aliases = {}
+    standalone = []  # (stand-alone union reference object, pool index of the object it was bound to)
 
     def slot_key(path):
         _, parent = mat.model_get(spec, model, path[:-1])
@@ -290,6 +291,14 @@ def run_case(case):
             d = tg.first_diff(p["node"].spec, p["model"], g)
             if d:
                 return fail("standalone_value", f"{step}: stand-alone object {pi} in buffer {p['where']}: {d}", p["where"], labels)
+        for u, pi in standalone:
+            for k_ in (1, 2):
+                g = sut(u.get)
+                if is_raised(g):
+                    return fail("read_raised", f"{step}: stand-alone union reference, read #{k_}: {g}", "standalone|" + g.key, labels)
+                tobj = pool[pi]["obj"]
+                if g is None or type(g).__name__ != type(tobj).__name__ or int(g._offset) != int(tobj._offset) or g._buffer is not A:
+                    return fail("alias_identity", f"{step}: stand-alone union reference at {u._offset}, read #{k_}: resolves to a {type(g).__name__} at {getattr(g, "_offset", None)}; the bound object is at {tobj._offset}", "standalone", labels)
         # raw-byte validity of every slot reachable in the model
         img = pl.snapshot(A)
         cap = int(A.capacity)
@@ -368,6 +377,17 @@ def run_case(case):
                 return fail("construct_raised", f"{step}: {o}", o.key, labels)
             pool.append({"obj": o, "node": tnode, "model": copy.deepcopy(op["value"]), "where": where})
             labels.add("op:construct_" + where)
+            if rn.spec["k"] == "unionref" and where == "A" and not op.get("container") and op["i"] % 2 == 0:
+                # a STAND-ALONE union reference (an object of the union class itself) bound to that very object; it is
+                # resolved again after every later step
+                u = sut(rn.cls, o, _buffer=A)
+                if is_raised(u):
+                    return fail("bind_raised", f"{step}: stand-alone {rn.cls.__name__}(object, _buffer=its buffer): {u}", "standalone|" + u.key, labels)
+                standalone.append((u, len(pool) - 1))
+                labels.add("op:standalone_union_reference")
+                r = check_all(step + " (stand-alone union reference)")
+                if r:
+                    return r
         elif kind in ("bind_existing", "bind_foreign", "bind_value", "bind_null"):
             slots = mat.ref_slots(spec, model)
             if not slots:
@@ -398,7 +418,12 @@ def run_case(case):
                 aliases.pop(key, None)  # this physical slot is rebound (slots inside the old referent stay what they are)
 
             if kind == "bind_null":
-                r = sut(mat.obj_set, parent[0], parent[1], path[-1:], None)
+                if op["j"] % 3 == 0 and path[-1][0] == "f" and parent[1].spec["k"] == "struct":
+                    # the null arrives through a whole-struct assignment naming only this field
+                    r = sut(parent[0]._update, {path[-1][1]: None})
+                    labels.add("op:bind_null_by_whole_struct_update")
+                else:
+                    r = sut(mat.obj_set, parent[0], parent[1], path[-1:], None)
                 if is_raised(r):
                     return fail("bind_raised", f"{step} slot {path}: {r}", "null|" + r.key, labels)
                 drop_aliases()
